@@ -562,6 +562,76 @@ def lut1(p, res):
     return n
 
 
+def lut2(p, res):
+    """table encoding: an entry is written on limb `k.div_ceil(base2k) - 1` multiplied by a scale that left-aligns its k bits on the limbs used:
+    scale == 2^(k.div_ceil(base2k) * base2k - k), in particular 1 when k is a multiple of base2k.  Decided path by path on the value handed to the replication `fill`, with the entry
+    set to 1 and (k, base2k) on a grid; boolean decisions (`k.is_multiple_of(base2k)`) are evaluated, paths with other decisions are left unjudged."""
+    from . import pwl, sc
+    from .c03 import _sw_holds, _Unjudged
+    n = 0
+    for f in sorted(p.lib_fns(), key=lambda x: x.uid):
+        if f.name != "lookup_table_set" or not f.blocks or f.is_test():
+            continue
+        n += 1
+        g = CFG(f)
+        fills = [bi for bi, t in f.calls() if (f.callee_def(t) or {}).get("n") == "fill" and len(t["a"]) == 2 and g.innermost_loop(bi) is not None]
+        paths = sc.returning_paths(f, g, cap=256) or []
+        pn = {v: k for k, v in f.param_names().items()}
+        if not fills or not paths or "k" not in pn:
+            res.undec("LUT-2", "%s: replication fill / paths / precision parameter not found" % f.pretty)
+            continue
+        K = Poly.atom(("p", pn["k"], ()))
+        bad = None
+        pts = 0
+        unj = 0
+        seen = set()
+        for path in paths:
+            if fills[0] not in path:
+                continue
+            sym = Sym(f, sc.PathFlow(f, path))
+            sym.at = (path.index(fills[0]), 1 << 21)
+            val_pl = sym.operand(f.blocks[fills[0]]["t"]["a"][1])
+            sym.at = None
+            sig = repr(val_pl)
+            if sig in seen:
+                continue
+            seen.add(sig)
+            conds = [sc.norm_cond(k_, t_) for k_, t_ in sc.path_conditions(f, g, path, sym)]
+            sw = [c_ for c_ in conds if c_[0] and isinstance(c_[0], tuple) and c_[0][0] == "sw"]
+            b2k = [a for a in _deep_atoms(val_pl) | set().union(*[_deep_atoms(sym.operand(f.blocks[c_[0][2]]["t"]["o"])) for c_ in sw] or [set()])
+                   if (a[0] == "p" and a[2][-1:] == ("base2k",)) or (a[0] == "f" and a[1] == "base2k")]
+            entry = [a for a in val_pl.atoms() if a[0] in ("call", "op", "phi") or (a[0] == "p" and a[1] != pn["k"] and not (a[2][-1:] == ("base2k",)))]
+            if len(set(b2k)) != 1:
+                unj += 1
+                continue
+            for kv in range(1, 41):
+                for bv in range(2, 21):
+                    ev = pwl.Eval(p, {"__fresh__": lambda key: 1})
+                    ev.syms[f.uid] = sym
+                    ev.val[repr(K.atoms().__iter__().__next__())] = kv
+                    ev.val[repr(b2k[0])] = bv
+                    try:
+                        if not all(_sw_holds(f, ev, sym, c_) for c_ in sw):
+                            continue
+                        v = ev.poly(val_pl)
+                    except (_Unjudged, pwl.ErrPath, ZeroDivisionError):
+                        unj += 1
+                        continue
+                    pts += 1
+                    want = 1 << (-(-kv // bv) * bv - kv)
+                    if v != want and bad is None:
+                        bad = {"k": kv, "base2k": bv, "scale": v, "want": want, "expr": repr(val_pl)}
+        if bad:
+            res.bad("LUT-2", f.pretty, "entry-scale", "%s: for k = %d message bits and radix 2^%d an entry is written with scale %d (value %s for an entry of 1) where left-aligning it on its "
+                    "limbs takes 2^(limbs * base2k - k) = %d: the table is shifted by whole limbs (for k == base2k it leaves the top of the torus and reads as zero)"
+                    % (f.pretty, bad["k"], bad["base2k"], bad["scale"], bad["expr"], bad["want"]), site=f.where(), detail=bad)
+        elif pts < 300:
+            res.undec("LUT-2", "%s: too few judged points (%d, %d unjudged)" % (f.pretty, pts, unj))
+        else:
+            res.ok("LUT-2", {"fn": f.pretty, "points": pts})
+    return n
+
+
 def run(res, tier):
     res.level = "other"
     res.explanation = ("Only the skip guards of the CGGI accumulator update are decided: an update acc[i] += X^e * u[j] - u[i] whose execution depends on a comparison of the exponent with "
@@ -569,6 +639,7 @@ def run(res, tier):
                        "noise are not decided.")
     res.rule("EXT-1", "extended blind rotation: destination polynomial i receives X^(hi + [i < lo]) * source ((i - lo) mod ext), every destination exactly once, for every split pos = hi * ext + lo")
     res.rule("EXT-2", "in-place rotation of an extended lookup table: replaying the per-polynomial rotations and the permutation leaves slot d = X^(hi + [d < lo]) * source ((d - lo) mod ext)")
+    res.rule("LUT-2", "table encoding: an entry is scaled by 2^(limbs * base2k - k), 1 when k is a multiple of the radix")
     res.rule("LUT-1", "table encoding: the drift recorded and applied by lookup_table_set is half the width of the replicated runs")
     res.rule("ROT-1", "an accumulator update skipped on `exponent == 0` has identical operand polynomials (X^e * u[j] - u[i] vanishes for e = 0 only when j == i)")
     res.assumptions = ["svp_apply_dft_to_dft(x_pow_a[e], u) multiplies u by X^e; x_pow_a[0] is the constant 1"]
@@ -584,4 +655,6 @@ def run(res, tier):
         res.floor("EXT-2", "in-place rotations of an extended table", n2, 1)
         nl = lut1(p, res)
         res.floor("LUT-1", "table encoders", nl, 1)
+        nl2 = lut2(p, res)
+        res.floor("LUT-2", "table encoders (entry scale)", nl2, 1)
         res.fn_count += n
